@@ -14,6 +14,12 @@ from vlib import cbool
 IMPORTS = "From DtlsV Require Import Hs.C03Auth Hs.C04Transcript Hs.C04Run."
 
 SITE_F5 = "internal/flight/flight12/flight4handler.go flight4Parse"
+SITE_A = ("internal/flight/flight12/flight0handler.go flight0Parse / flight2handler.go flight2Parse (negotiation from the "
+          "first, cookie-less ClientHello)")
+# ClientHello fields that ValidateHelloVerifyRequestResponse pins between the first and the second ClientHello:
+# everything before the extensions (version, random, session id, cipher suites, compression) + connection_id + use_srtp
+PINNED = {"ch_swap_suites", "ch_remove_first_suite", "ch_remove_last_suite", "ch_strip_srtp", "ch_alter_srtp",
+          "ch_flip_random", "ch_session_id", "ch_version_10", "ch_strip_cid", "ch_alter_cid"}
 
 # ---------------------------------------------------------------- effect of a rewrite on the two views
 # (ground truth from WHAT is rewritten, justified by the code that consumes the field)
@@ -25,8 +31,6 @@ LOCAL = {
     "ch_version_10":   "flight0Parse: ClientHello version must be 1.2",
     "ch_flip_cookie":  "cookie does not match state.Cookie",
     "hvr_cookie":      "client echoes the altered cookie, server rejects it",
-    "ch1_swap_suites": "second ClientHello differs from the first beyond the cookie",
-    "ch0_swap_suites": "second ClientHello differs from the first beyond the cookie",
     "ch_strip_cid":    "return_routability_check offered without connection_id",
     "scert_flip_last": "certificate signature broken: chain verification fails (C03 client12)",
     "scert_flip_mid":  "certificate bytes altered: parse / signature / chain fails (C03 client12)",
@@ -39,7 +43,7 @@ LOCAL = {
     "cv_delete":       "certificate without CertificateVerify: server keeps waiting (C03 server12 = Wait)",
     "creq_delete":     "message_seq gap: the client never completes the server flight",
 }
-TRANSCRIPT = {"ch_swap_suites", "ch_remove_first_suite", "ch_remove_last_suite", "ch_strip_ems", "ch_strip_alpn",
+TRANSCRIPT = {"ch_narrow_alpn", "ch_narrow_groups", "ch_swap_suites", "ch_remove_first_suite", "ch_remove_last_suite", "ch_strip_ems", "ch_strip_alpn",
               "ch_strip_groups", "ch_strip_sigalgs", "ch_strip_reneg", "ch_alter_alpn", "ch_alter_srtp",
               "ch_alter_groups", "ch_alter_sigalgs", "ch_alter_cid", "ch_session_id", "sh_session_id",
               "sh_strip_alpn", "sh_strip_reneg", "sh_strip_pointfmt", "sh_alter_alpn", "sh_alter_srtp",
@@ -53,6 +57,29 @@ KEYS = {"sh_other_suite": "the two sides run different suites",
 
 def effect(v, mut):
     """returns dict(effect, resumed, ems_c, ems_s, deaf, why)"""
+    target = ""
+    if "@" in mut:
+        mut, target = mut.split("@")
+    e = effect1(v, mut)
+    if e is None or not target or v["ver"] == 13:
+        return e
+    # DTLS 1.2 with hello verification: only ONE of the two ClientHellos is rewritten
+    if mut in PINNED:
+        e["effect"] = "ELocal"
+        e["why"] = "the field is pinned between the two ClientHellos (ValidateHelloVerifyRequestResponse): the server refuses"
+        return e
+    if target == "ch1":
+        e.update(effect="ENone", ems_c=v["ems"], ems_s=v["ems"], deaf=False, resumed=v["resumed"])
+        e["why"] = ("the first, cookie-less ClientHello is in no transcript (RFC 6347 4.2.1): the alteration cannot be "
+                    "detected, so it must steer nothing - the server negotiates from the second ClientHello")
+        return e
+    if mut == "ch_strip_reneg":
+        e["effect"], e["why"] = "ELocal", ("the server's renegotiation_info answer (remembered from the first ClientHello) "
+                                           "is not offered in the second: FinalizeServerHello refuses")
+    return e     # ch2 only: the second ClientHello is the one in the transcript - as when every copy is rewritten
+
+
+def effect1(v, mut):
     ems = v["ems"]
     e = {"resumed": v["resumed"], "ems_c": ems, "ems_s": ems, "deaf": False, "why": ""}
     cert = v["suite"] in ("cert", "certca")
@@ -65,9 +92,6 @@ def effect(v, mut):
     if mut == "hvr_version_10":
         e["effect"] = "ENone"
         e["why"] = "HelloVerifyRequest is outside the Finished transcript (RFC 6347 4.2.1); both versions are accepted"
-        return e
-    if mut == "ch0_swap_suites" and v["resumed"]:
-        e["effect"] = "ETranscript"     # a resumed handshake has a single ClientHello (no HelloVerifyRequest round)
         return e
     if mut in ("ch_flip_random", "sh_flip_random"):
         if cert and not v["resumed"]:
@@ -110,14 +134,36 @@ def effect(v, mut):
     return None
 
 
+def param_diffs(c):
+    """negotiated parameters, as reported by the sides that succeeded, that differ from the untampered run"""
+    out = {}
+    for side, ok, suite, alpn, srtp, ems, curve in (
+            ("client", c["cres"] == "ok", c["csuite"], c["calpn"], c["csrtp"], c.get("cems", -1), c.get("ccurve", -1)),
+            ("server", c["sres"] == "ok", c["ssuite"], c["salpn"], c["ssrtp"], c.get("sems", -1), c.get("scurve", -1))):
+        if not ok:
+            continue
+        if suite != c["base_suite"]:
+            out[side + " cipher_suite"] = "0x%04x instead of 0x%04x" % (suite, c["base_suite"])
+        if alpn != c["base_alpn"]:
+            out[side + " alpn"] = "%r instead of %r" % (alpn, c["base_alpn"])
+        if srtp != c["base_srtp"]:
+            out[side + " srtp_profile"] = "%d instead of %d" % (srtp, c["base_srtp"])
+        if c["variant"]["ver"] == 12 and ems >= 0 and ems != c.get("base_ems", ems):
+            out[side + " extended_master_secret"] = "%d instead of %d" % (ems, c["base_ems"])
+        if c["variant"]["ver"] == 12 and curve >= 0 and c["variant"]["suite"] != "psk" and curve != c.get("base_curve", curve):
+            out[side + " key_exchange_group"] = "%d instead of %d" % (curve, c["base_curve"])
+    return out
+
+
 def case_term(c):
     v = c["variant"]
     e = effect(v, c["mut"])
     if e is None:
         return None
-    return "(mk_c04 %s %s %s %s %s %s %s %s %s)" % (
+    return "(mk_c04 %s %s %s %s %s %s %s %s %s %s)" % (
         cbool(e["resumed"]), cbool(e["ems_c"]), cbool(e["ems_s"]), cbool(v["suite"] == "certca"),
-        cbool(v["ver"] == 13), e["effect"], cbool(e["deaf"]), cbool(c["cres"] == "ok"), cbool(c["sres"] == "ok"))
+        cbool(v["ver"] == 13), e["effect"], cbool(e["deaf"]), cbool(c["cres"] == "ok"), cbool(c["sres"] == "ok"),
+        cbool(not param_diffs(c)))
 
 
 def steered(c):
@@ -159,6 +205,7 @@ def run(chk):
 
     # ---- the property's own monitor on the implementation trace
     reported = set()
+    steered_cases = []
     f5_cases = []
     unknown = []
     for c in cases:
@@ -167,6 +214,32 @@ def run(chk):
             unknown.append(c)
             continue
         if e["effect"] == "ENone":
+            # outside every transcript by protocol design (first ClientHello, HelloVerifyRequest): receiving an altered
+            # message and still succeeding cannot be avoided; the monitor is "no negotiated parameter, key or transcript
+            # input differs from the untampered run"
+            diffs = param_diffs(c)
+            if diffs:
+                found = True
+                steered_cases.append(c)
+                sig = {"monitor": "negotiated parameter differs from the untampered run after a rewrite outside the transcript",
+                       "version": c["variant"]["ver"], "target": c.get("target") or "hvr"}
+                key = json.dumps(sig, sort_keys=True)
+                if key not in reported:
+                    reported.add(key)
+                    chk.finding(SITE_A, sig,
+                                "both endpoints complete with a steered parameter although only %s was rewritten (%s): %s; "
+                                "variant %s, client=%s server=%s; all such runs: %s" % (
+                                    "the first, cookie-less ClientHello" if c.get("target") == "ch1" else c["mut"],
+                                    c["mut"], json.dumps(diffs), c["variant"]["name"], c["cres"], c["sres"],
+                                    " ".join(sorted("%s/%s" % (k["variant"]["name"], k["mut"]) for k in cases
+                                                    if (effect(k["variant"], k["mut"]) or {}).get("effect") == "ENone"
+                                                    and param_diffs(k)))),
+                                {"how": "TestVerifC04 with C04_ONLY=%s:%s : the mutation is applied only to ClientHello records "
+                                        "with an empty cookie; base_* = what the untampered handshake of the variant negotiates "
+                                        "(base_ems / base_curve: state.ExtendedMasterSecret / state.NamedCurve of the server)" % (
+                                            c["variant"]["name"], c["mut"]),
+                                 "case": c, "differs": diffs,
+                                 "rerun": "VERIF_SEED=%d bin/check C04 --tier %s" % (chk.seed, chk.tier)})
             continue
         who = [s for s, r in (("client", c["cres"]), ("server", c["sres"])) if r == "ok"]
         leaked = [s for s, n, r in (("client", c["creads"], c["cres"]), ("server", c["sreads"], c["sres"])) if n > 0]
@@ -215,18 +288,19 @@ def run(chk):
             for j in bad[:3]:
                 c = known[j]
                 e = effect(c["variant"], c["mut"])
-                viol = e["effect"] != "ENone" and (c["cres"] == "ok" or c["sres"] == "ok")
+                viol = (c["cres"] == "ok" or c["sres"] == "ok") and (e["effect"] != "ENone" or bool(param_diffs(c)))
                 chk.finding("handshake", {"monitor": "model-mismatch", "variant": c["variant"]["name"], "mut": c["mut"]},
-                            "who reports success differs from the symbolic model Hs/C04Run.v [%s / %s]: client=%s server=%s" % (
-                                c["variant"]["name"], c["mut"], c["cres"], c["sres"]),
+                            "who reports success (or, for a rewrite outside the transcript, a negotiated parameter) differs from "
+                            "the symbolic model Hs/C04Run.v [%s / %s]: client=%s server=%s params %s" % (
+                                c["variant"]["name"], c["mut"], c["cres"], c["sres"], json.dumps(param_diffs(c))),
                             {"case": c, "term": terms[j], "effect": e, "correspondence": "Hs.C04Run.c04_ok"},
                             no_input=not (viol or found))
         bad2, err2 = vlib.coq_mismatches("c04m", IMPORTS, "c04_case", "c04_not_violating", terms, shard=300)
         if bad2 is None:
             chk.broken("monitor evaluation failed in coqc", err2)
         else:
-            py = {i for i, c in enumerate(known) if effect(c["variant"], c["mut"])["effect"] != "ENone"
-                  and (c["cres"] == "ok" or c["sres"] == "ok")}
+            py = {i for i, c in enumerate(known) if (c["cres"] == "ok" or c["sres"] == "ok") and
+                  (effect(c["variant"], c["mut"])["effect"] != "ENone" or param_diffs(c))}
             if py != set(bad2):
                 chk.broken("property monitor in Coq (c04_violates) and in the driver disagree",
                            json.dumps(known[sorted(py ^ set(bad2))[0]]))
@@ -247,6 +321,8 @@ def run(chk):
                                  for c in f5_cases if steered(c)}),
                  outside_transcript_both_succeed=sorted({"%s/%s" % (c["variant"]["name"], c["mut"]) for c in cases
                                                          if (effect(c["variant"], c["mut"]) or {}).get("effect") == "ENone"}),
+                 steered_by_first_client_hello=sorted({"%s/%s: %s" % (c["variant"]["name"], c["mut"], json.dumps(param_diffs(c)))
+                                                       for c in steered_cases}),
                  datagram_storms=sorted({"%s/%s" % (c["variant"]["name"], c["mut"]) for c in storms}))
     if not proved and not found:
         where, pout = getattr(chk, "proof_error", ("?", ""))
@@ -263,8 +339,11 @@ def run(chk):
                      "idealised: a CertificateVerify verifies iff the two transcripts up to ClientKeyExchange are equal, a "
                      "record opens iff both sides derived the same key block",
                      "HelloVerifyRequest and the cookie-less ClientHello are outside the Finished transcript by RFC 6347 "
-                     "4.2.1: altering the HelloVerifyRequest version leaves both sides successful (reported in the leg "
-                     "info, not a violation)",
+                     "4.2.1: an alteration there cannot be detected; the monitor for such rewrites (first ClientHello only, "
+                     "HelloVerifyRequest version) is therefore 'no negotiated parameter (cipher suite, ALPN, SRTP profile, extended "
+                     "master secret, key-exchange group) differs from the untampered run', both sides succeeding is expected",
+                     "every ClientHello mutation has three targets in variants with hello verification: every copy, only the "
+                     "first (cookie-less) ClientHello, only the second",
                      "the effect of each rewrite on the two views is classified in checks/c04.py from what is rewritten; "
                      "the outcome is computed by the symbolic model",
                      "encrypted messages (Finished, all DTLS 1.3 messages after ServerHello) are not rewritten: C05/C20"])
